@@ -132,6 +132,16 @@ class _UnionNormType(_BasicNormType):
         args_list.sort(key=self._make_orderable)
         return tuple(args_list)
 
+    # different members can have equal sort keys (`Literal[1]` and `Literal["1"]` inside generics,
+    # classes with equal names), so the order of members must not take part in the comparison
+    def __hash__(self):
+        return hash((Union, frozenset(self._args)))
+
+    def __eq__(self, other):
+        if isinstance(other, _UnionNormType):
+            return len(self._args) == len(other._args) and frozenset(self._args) == frozenset(other._args)
+        return super().__eq__(other)
+
 
 def _type_and_value_iter(args):
     return [(type(arg), arg) for arg in args]
